@@ -202,6 +202,9 @@ func c07Run(c *rt.C, src map[string]string, id string, wantAccept bool, class st
 			}
 		} else if lerr != nil {
 			c.Event("lintfile_error")
+			if wantAccept && strings.HasSuffix(n, ".j5s") {
+				c.Violate("lint-fails/LintFile/"+errSig(lerr), fmt.Sprintf("the linter fails on a file of a package within the documented language (%s, file %s): %s", id, n, rt.Clip(lerr.Error(), 300)), det())
+			}
 			c07Positions(c, lerr, src, "LintFile", class)
 		} else {
 			c.Event("lintfile_clean")
@@ -228,6 +231,9 @@ func c07Run(c *rt.C, src map[string]string, id string, wantAccept bool, class st
 			c07Positions(c, ews, src, "LintAll", class)
 		} else if lerr != nil {
 			c.Event("lintall_error")
+			if wantAccept {
+				c.Violate("lint-fails/LintAll/"+errSig(lerr), fmt.Sprintf("the linter fails on a package within the documented language (%s): %s", id, rt.Clip(lerr.Error(), 300)), det())
+			}
 		}
 	}
 	var _ = errors.New
